@@ -1,5 +1,8 @@
 """C05 - operations terminate and leave nothing running, even when cancelled mid-flight (PARTIAL)."""
+import hashlib
 import json
+import os
+import random
 from collections import Counter
 
 from lib import vf, gensrv
@@ -18,6 +21,190 @@ OPS = [
 ]
 
 
+# ------------------------------------------------------------------ round 6: shipped extensions x faults
+FTV1 = {"apollo-federation-include-trace": "ftv1"}
+# (name, extensions installed in this order, request headers)
+EXT_SETS = [
+    ("ftv1", ["ftv1"], FTV1),
+    ("ftv1-all-errors", ["ftv1:all"], FTV1),
+    ("ftv1-transform", ["ftv1:transform"], FTV1),
+    ("ftv1-not-requested", ["ftv1"], {}),
+    ("apollotracing", ["apollotracing"], {}),
+    ("introspection+complexity", ["introspection", "complexity:100000"], {}),
+    ("complexity-refuses", ["complexity:2"], {}),
+    ("apq", ["apq"], {}),
+    ("everything", ["introspection", "complexity:100000", "apq", "apollotracing", "ftv1"], FTV1),
+]
+# queries over the positions where a list element can be null / fail without any field of it having run
+FAULT_QUERIES = [
+    "{ ts { nid y } us { __typename ... on T { nid } } }",
+    "{ t { kidsNN { nid s } kidsNNNN { y } matrix { nid } nodes { nid } } }",
+    "{ ts { nid kidsNN { nid kidsNN { y } } } tNN { s } }",
+    "{ ts { nid ... @defer(label: \"k\") { kidsNN { nid y } s } } t { nid ... @defer { kidsNN { y } } } }",
+    "{ p { t { kidsNN { nid } } friends { name } } named { name } us { ... on P { nameNN } ... on R { ok } } }",
+]
+
+
+def result_lines(so):
+    """the runner's result lines; the federated tracer prints to the process's stdout when marshalling its trace
+    fails (fmt.Print in InterceptResponse): such text precedes a result line and is cut off"""
+    out = []
+    for x in so.split("\n"):
+        k = x.find('{"id":')
+        if k >= 0:
+            out.append(x[k:])
+    return out
+
+
+def corpus(name):
+    return json.load(open(os.path.join(vf.VERIF, "corpus", "C05", name)))
+
+
+def fault_ops(ctx):
+    """directed operations (corpus/C05/fault_ops.json) + generated ones: fault rates (errors, nil results, NULL LIST
+    ELEMENTS, panics) over queries rich in non-null lists, seeds derived from the run's seed"""
+    ops = [(o["id"], o["query"], o["plan"]) for o in corpus("fault_ops.json")]
+    n = 2 if ctx.tier == "quick" else 8
+    for qi, q in enumerate(FAULT_QUERIES):
+        for k in range(n):
+            sd = ctx.seed * 1000 + qi * 50 + k
+            rates = {"err": 120, "nil": 60, "elemNil": [350, 150, 600][k % 3], "panic": [0, 40][k % 2], "maxLen": 4,
+                     "delay": 300, "maxDelay": 1500}
+            ops.append(("gen-faults-%d-%d" % (qi, sd), q, {"seed": sd, "rates": rates}))
+    return ops
+
+
+def with_ext(case, ext, query):
+    name, shipped, headers = ext
+    case["shipped"] = shipped
+    if headers:
+        case["headers"] = headers
+    if "apq" in shipped:
+        # a persisted-query registration (hash + text); every third one only names the hash (refused: not found)
+        h = hashlib.sha256(query.encode()).hexdigest()
+        case["extensions"] = {"persistedQuery": {"version": 1, "sha256Hash": h}}
+        if int(h[:4], 16) % 3 == 0:
+            case["query"] = ""
+    return case
+
+
+def ext_run_cases(ctx, ops):
+    """executor level: every fault operation x every extension set x {drained, single payload} (+ a cancellation)"""
+    cases = []
+    for i, q, p in ops:
+        for ext in EXT_SETS:
+            for mp in (0, 1):
+                if mp == 1 and "@defer" not in q:
+                    continue
+                cases.append(with_ext({"id": "%s+%s/%d" % (i, ext[0], mp), "query": q, "plan": p, "maxPayloads": mp,
+                                       "timeoutMs": 1500, "leakCheck": True}, ext, q))
+            if ext[0] in ("ftv1", "everything"):
+                cases.append(with_ext({"id": "%s+%s@2" % (i, ext[0]), "query": q, "plan": p, "cancelAt": 2,
+                                       "timeoutMs": 1500, "leakCheck": True}, ext, q))
+    return cases
+
+
+def ext_http_cases(ctx, ops, rnd):
+    """every transport: each fault operation with the federated tracer, and with one more extension set (rotating)"""
+    hcases = []
+    for k, (i, q, p) in enumerate(ops):
+        exts = [EXT_SETS[0], EXT_SETS[1 + (k + ctx.seed) % (len(EXT_SETS) - 1)]]
+        if ctx.tier != "quick":
+            exts = EXT_SETS
+        for ext in exts:
+            for tr in ("post", "get", "sse", "multipart", "ws", "gqlws"):
+                c = {"id": "%s+%s/%s" % (i, ext[0], tr), "query": q, "plan": p, "transport": tr, "timeoutMs": 3000}
+                if tr == "gqlws":
+                    c["transport"], c["subproto"] = "ws", "graphql-ws"
+                if tr == "sse":
+                    c["keepAliveUs"] = 1500
+                v = rnd.randrange(4)
+                if v == 1 and tr in ("post", "get", "sse", "multipart"):
+                    c["id"] += "/drop"
+                    c["disconnectAfter"] = 20
+                elif v == 2:
+                    c["id"] += "/cancel"
+                    c["cancelAt"] = 2
+                elif v == 3 and c["transport"] == "ws":
+                    c["id"] += "/drop"
+                    c["clientEnds"], c["afterNext"] = "drop", 1
+                hcases.append(with_ext(c, ext, q))
+    return hcases
+
+
+# ------------------------------------------------------------------ round 6: websocket options x clients
+WS_SERVERS = [
+    # (name, options, subprotocols they act on)
+    ("plain", {}, ("", "graphql-ws")),
+    ("init-timeout", {"initTimeoutMs": 40}, ("", "graphql-ws")),
+    ("init-timeout+funcs", {"initTimeoutMs": 40, "funcs": True}, ("", "graphql-ws")),
+    ("init-timeout+ping-pong", {"initTimeoutMs": 40, "pingPongMs": 20}, ("",)),
+    ("ping-pong", {"pingPongMs": 20}, ("",)),
+    ("ping-pong-missing-pong-ok", {"pingPongMs": 20, "missingPongOk": True}, ("",)),
+    ("pong-only", {"pongOnlyMs": 15}, ("",)),
+    ("keep-alive", {"keepAliveMs": 15}, ("graphql-ws",)),
+    ("init-timeout+keep-alive", {"initTimeoutMs": 40, "keepAliveMs": 15}, ("graphql-ws",)),
+]
+WS_INITFUNCS = [{}, {"initFunc": "derived"}, {"initFunc": "detached"}, {"initFunc": "error"},
+                {"initFunc": "slow", "initFuncMs": 30}, {"initFunc": "payload"}, {"initFunc": "deadline", "initFuncMs": 50}]
+# clients that never get as far as an acknowledged connection
+WS_CLIENT_INITS = [
+    ("never", {"clientInit": "never"}),
+    ("late", {"clientInit": "late", "initDelayMs": 100}),
+    ("just-in-time", {"clientInit": "late", "initDelayMs": 10}),
+    ("vanishes-at-once", {"clientInit": "drop"}),
+    ("vanishes-at-timeout", {"clientInit": "drop", "initDelayMs": 40}),
+    ("closes", {"clientInit": "close", "initDelayMs": 5}),
+    ("garbage", {"clientInit": "garbage"}),
+    ("other-frame", {"clientInit": "other"}),
+]
+# clients that stop cooperating later
+WS_CLIENT_STOPS = [("cooperates", {"idleMs": 60})] + [
+    ("%s-%s" % (at, how), {"stopAt": at, "stopHow": how, "silentMs": 120})
+    for at in ("acked", "subscribed", "next", "completed") for how in ("silent", "drop", "close")]
+WS_SLOW = {"delay": 700, "maxDelay": 25000}   # resolvers slow enough for an operation to be in flight
+
+
+def ws_case(cid, op, wsx, subproto, slow):
+    i, q, p = op
+    if slow:
+        p = dict(p, rates=dict(p.get("rates", {}), **WS_SLOW))
+    c = {"id": cid, "query": q, "plan": p, "transport": "ws", "timeoutMs": 3000, "wsx": wsx}
+    if subproto:
+        c["subproto"] = subproto
+    return c
+
+
+def ws_init_cases(ctx, ops):
+    """every option set x every client that fails to initialise (the operation is never started)"""
+    out = []
+    for sname, sopt, subs in WS_SERVERS:
+        for sub in subs:
+            for cname, copt in WS_CLIENT_INITS:
+                out.append(ws_case("wsx/%s/%s/%s" % (sname, sub or "transport-ws", cname), ops[0], dict(sopt, **copt), sub, False))
+    return out
+
+
+def ws_session_cases(ctx, ops, rnd, n):
+    """option set x InitFunc x client that stops at a later stage x answers pings or not x operation: the directed
+    sessions of corpus/C05/ws_sessions.json and a seeded sample of n from the product (thorough, base config: the whole product)"""
+    out = []
+    for k, d in enumerate(corpus("ws_sessions.json")):
+        out.append(ws_case("wsx/directed/" + d["id"], ops[k % len(ops)], d["wsx"], d.get("subproto", ""), d.get("slow", False)))
+    prod = [(s, sub, f, c, np) for s in WS_SERVERS for sub in s[2] for f in WS_INITFUNCS for c in WS_CLIENT_STOPS
+            for np in ((False, True) if "pingPongMs" in s[1] else (False,))]
+    rnd.shuffle(prod)
+    for (sname, sopt, _), sub, f, (cname, copt), np in prod[:n]:
+        wsx = dict(sopt, **f)
+        wsx.update(copt)
+        if np:
+            wsx["noPong"] = True
+        op = ops[rnd.randrange(len(ops))]
+        out.append(ws_case("wsx/%s/%s/%s/%s%s/%s" % (sname, sub or "transport-ws", f.get("initFunc", "no-init-func"), cname,
+                                                       "/no-pong" if np else "", op[0]), op, wsx, sub, rnd.randrange(2) == 0))
+    return out
+
+
 def run(ctx):
     if getattr(ctx, "replay", None):
         from checks import execreplay
@@ -28,13 +215,24 @@ def run(ctx):
         "resolvers return promptly when their context is cancelled (the universal resolver's sleeps select on ctx.Done)",
         "sync.WaitGroup, semaphore.Weighted, channels and context are modelled by the transition systems of Model/Join.lean, not verified",
         "websocket: operations (queries, @defer queries, mutations) run as graphql-transport-ws `subscribe` payloads over a real connection incl. client complete / abrupt disconnect / cancellation; event-stream subscriptions and the protocol itself are C11's",
+        "hand-written locks and channel sends of graphql/** are modelled as control-flow skeletons (Model/SyncProg.lean, regenerated by go/extract/syncfacts.go): calls, panics between Lock and Unlock, and mutexes reached through two different expressions are not followed; a loop is taken to preserve the lock state (checked) and to contain no bare send",
+        "shipped extensions: apollofederatedtracingv1.Tracer (three error options, with and without its header), apollotracing.Tracer, extension.Introspection, FixedComplexityLimit, AutomaticPersistedQuery over a fresh in-memory cache; what they add to the response (trace content) is not judged, only that the operation ends and leaves nothing running",
     ]
     cfgs = ["base", "wl1", "wl2", "wl8", "follow_funcsyn_wl2"]
     built = gensrv.build_matrix(ctx, "exec", cfgs)
-    ok_extract = not isinstance(built["wl2"], Exception) and ctx.extract("JoinFacts", arg=gensrv.gen_dir("exec", "wl2"))
-    proved = ok_extract and ctx.prove(props=["GqlgenVerif.Props.C05", "GqlgenVerif.Props.C05Gen"])
+    ok_extract = not isinstance(built["wl2"], Exception) and ctx.extract("JoinFacts", arg=gensrv.gen_dir("exec", "wl2")) \
+        and ctx.extract("SyncFacts")
+    proved = ok_extract and ctx.prove(props=["GqlgenVerif.Props.C05", "GqlgenVerif.Props.C05Gen", "GqlgenVerif.Props.C05Sync"])
+    sync_report = ""
     if ok_extract and not proved:
         ctx.cov["proof_failure"] = ctx.proof_failure
+        # which regenerated synchronisation skeleton broke its invariant (names the function)
+        try:
+            sync_report = (ctx.driver("c05", ["sync"]) or [""])[0]
+        except Exception as ex:  # the driver does not build either
+            sync_report = "driver: %r" % (ex,)
+        ctx.cov["sync_report"] = sync_report
+    fops = fault_ops(ctx)
     dist = Counter()
     total = 0
     nontriv = set()
@@ -73,12 +271,24 @@ def run(ctx):
         rc, so, se = vf.sh([b, "-mode", "run", "-maxhung", "3"], inp="\n".join(json.dumps(c) for c in cases) + "\n", timeout=2400)
         if rc != 0:
             raise RuntimeError("runner failed: " + se[-2000:])
-        for c, l in zip(cases, [x for x in so.split("\n") if x]):
+        # 2b. the fault operations under every set of shipped extensions (quick: half of them on the other configs)
+        xcases = ext_run_cases(ctx, fops if ctx.tier != "quick" or cfg in ("base", "wl2") else fops[:len(fops) // 2 + 1])
+        rc, so2, se = vf.sh([b, "-mode", "run", "-maxhung", "3"], inp="\n".join(json.dumps(c) for c in xcases) + "\n", timeout=2400)
+        if rc != 0:
+            raise RuntimeError("runner failed: " + se[-2000:])
+        answered = list(zip(cases, result_lines(so))) + list(zip(xcases, result_lines(so2)))
+        for c, l in answered:
             r = json.loads(l)
             total += 1
             tag = "cancelled" if r.get("cancelled") else "not-cancelled"
-            dist[cfg + ":" + tag] += 1
-            if c["maxPayloads"] == 1 and "@defer" in c["query"]:
+            if c.get("shipped"):
+                dist["ext:" + c["id"].split("+")[-1].split("/")[0].split("@")[0] + (":refused" if r.get("gateErrors") else "")] += 1
+                errs = [e for p_ in r["payloads"] for e in p_["errors"]]
+                if len(errs) >= 2 and any(e["path"].split("/")[-1].isdigit() for e in errs):
+                    dist["ext:error-at-a-list-element-and-another-error"] += 1
+            else:
+                dist[cfg + ":" + tag] += 1
+            if c.get("maxPayloads") == 1 and "@defer" in c["query"]:
                 dist["single-payload-with-defer"] += 1
             nontriv.add(c["id"] + cfg)
             why = []
@@ -148,9 +358,33 @@ def run(ctx):
         rc, so, se = vf.sh([b, "-mode", "http", "-maxhung", "3"], inp="\n".join(json.dumps(c) for c in hcases) + "\n", timeout=1200)
         if rc != 0:
             raise RuntimeError("http runner failed: " + se[-2000:])
-        for c, l in zip(hcases, [x for x in so.split("\n") if x]):
+        answered = list(zip(hcases, result_lines(so)))
+        # 3b. the fault operations with shipped extensions installed, over every transport
+        # 3c. the websocket transport's options x clients that stay silent / answer late / vanish at every stage
+        rnd = random.Random(ctx.seed * 7919 + cfgs.index(cfg))
+        xh = ext_http_cases(ctx, fops if ctx.tier != "quick" or cfg in ("base", "wl2") else fops[:len(fops) // 2 + 1], rnd)
+        wsops = [o for o in ops[:6] if not o[1].startswith("mutation")] + fops[:3]
+        ws = ws_session_cases(ctx, wsops, rnd, (60 if cfg == "base" else 25) if ctx.tier == "quick" else (2000 if cfg == "base" else 300))
+        if ctx.tier != "quick" or cfg == "base":
+            ws = ws_init_cases(ctx, wsops) + ws
+        for extra in (xh, ws):
+            rc, so, se = vf.sh([b, "-mode", "http", "-maxhung", "3"], inp="\n".join(json.dumps(c) for c in extra) + "\n", timeout=2400)
+            if rc != 0:
+                raise RuntimeError("http runner failed: " + se[-2000:])
+            answered += list(zip(extra, result_lines(so)))
+        for c, l in answered:
             r = json.loads(l)
             total += 1
+            if c.get("wsx"):
+                x = c["wsx"]
+                dist["wsx:options:" + ("+".join(k for k in ("initTimeoutMs", "pingPongMs", "missingPongOk", "pongOnlyMs", "keepAliveMs", "funcs") if x.get(k)) or "none")] += 1
+                dist["wsx:client:" + (x.get("clientInit") and "init-" + x["clientInit"] or (x.get("stopAt") and x["stopAt"] + "-" + x["stopHow"]) or "cooperates") + ("/no-pong" if x.get("noPong") else "")] += 1
+                if x.get("initFunc"):
+                    dist["wsx:initFunc:" + x["initFunc"]] += 1
+                if x.get("initTimeoutMs") and x.get("clientInit") in ("never", "late") and "initialisation timeout" in (r.get("body") or ""):
+                    dist["wsx:init-timeout-won"] += 1
+            elif c.get("shipped"):
+                dist["http-ext:" + c["id"].split("+")[-1].split("/")[0] + ":" + c["transport"]] += 1
             dist["http:" + c["transport"] + (":refused" if c["id"].startswith("refused-") else "") + (":keepalive" if c.get("keepAliveUs") else "") + (":" + c["subproto"] if c.get("subproto") else "") + (":server-closes:" + c["clientEnds"] if c.get("clientEnds") in ("dupid", "terminate") else
                                              ":drop" if c.get("disconnectAfter") or c.get("clientEnds") == "drop" else
                                              ":client-complete" if c.get("clientEnds") else ":cancel" if c.get("cancelAt") else "")] += 1
@@ -166,16 +400,19 @@ def run(ctx):
         if len(ctx.violations) >= 20:
             break
         ctx.violation({"kind": "observation", "config": cfg, "why": why, "case": c,
-                       "leaked": r.get("leaked"), "hung": r.get("hung"),
+                       "leaked": r.get("leaked"), "hung": r.get("hung"), "session": r.get("body") if c.get("wsx") else None,
+                       "regenerated_sync_facts": sync_report or "Props/C05Sync holds",
                        "shape": {"why": ",".join(why), "transport": c.get("transport", "executor"),
-                                 "single_payload": c.get("maxPayloads") == 1},
+                                 "single_payload": c.get("maxPayloads") == 1,
+                                 "shipped": ",".join(c.get("shipped", [])),
+                                 "ws_options": ",".join(sorted("%s=%s" % kv for kv in c.get("wsx", {}).items()))},
                        "replay": "echo '<case json>' | <generated server %s> -mode %s" % (cfg, "http" if c.get("transport") else "run")})
     if ok_extract and not proved and not ctx.violations:
-        ctx.violation({"kind": "proof", "failing": ctx.proof_failure}, no_failing_input=True)
+        ctx.violation({"kind": "proof", "failing": ctx.proof_failure, "sync_report": sync_report}, no_failing_input=True)
     ctx.cov.update({
         "evaluations": total,
         "distinct_nontrivial": len(nontriv),
-        "rule": "operations with list fan-out, nested lists, unions, @defer (nested, in lists) and mutations x worker_limit 0/1/2/8 x every cancellation point of the logical clock (before/after each user-code invocation; quick tier: every ~12th) x {response function drained, called once as single-response transports do}; plus the same operations over real POST/GET/SSE/multipart connections and as graphql-transport-ws operations over a real websocket, incl. client disconnect, client complete and mid-flight cancellation; observation = response function / HTTP response ended within the time box, and no goroutine with gqlgen or generated frames alive 400ms after cancel",
+        "rule": "operations with list fan-out, nested lists, unions, @defer (nested, in lists) and mutations x worker_limit 0/1/2/8 x every cancellation point of the logical clock (before/after each user-code invocation; quick tier: every ~12th) x {response function drained, called once as single-response transports do}; plus the same operations over real POST/GET/SSE/multipart connections and as graphql-transport-ws operations over a real websocket, incl. client disconnect, client complete and mid-flight cancellation; the fault operations (corpus/C05/fault_ops.json + seeded: errors, nil results, null elements of non-null lists, panics in elements, in initial and deferred payloads) under every set of gqlgen's shipped extensions, at executor level and over every transport; websocket sessions = transport options (InitTimeout, PingPongInterval with/without MissingPongOk, PongOnlyInterval, KeepAlivePingInterval, ErrorFunc/CloseFunc, seven InitFunc behaviours) x both subprotocols x clients that never / late / wrongly initialise or go silent / vanish / close at each later stage, answering pings or not (corpus/C05/ws_sessions.json + the whole init-stage matrix + a seeded sample of the rest); observation = response function / HTTP response / session ended within the time box, and no goroutine with gqlgen or generated frames alive 400-500ms after the request ended",
         "input_distribution": dict(dist),
         "observed_failures": len(bad),
         "samples": samples,
